@@ -43,6 +43,8 @@ def seq_configs(quick):
          8 if quick else 9, 2),
         ('rules', seq.rule_cfg(own), d, 1),
         ('specs', seq.spec_cfg(SPEC_OWNERS[:n]), d, 1),
+        ('specs unlink_all filters',
+         seq.spec_filter_cfg(['proid.x-1-aaaa', 'proid.y-2-bbbb']), 6, 1),
         ('netsvc/30', seq.netsvc_cfg('192.168.0.0/30', n), d, 1),
         ('netsvc/29', seq.netsvc_cfg('192.168.0.0/29', n), d, 1),
     ]
@@ -244,6 +246,8 @@ def _run(ctx, t0):
                                'pick_outside', 'create_again',
                                'restart_with_owner_gone',
                                'init_while_other_pool_has_live_owner',
+                               'filtered_release_next_to_unaddressed',
+                               'ownerless_release',
                                'alloc_next_to_other_pool'):
         if cov['nontrivial_counters'].get(k, 0) == 0:
             raise statex.HarnessError('vacuous run: counter %s is 0' % k)
@@ -349,9 +353,12 @@ ASSUMPTIONS = [
     'only addresses of its own network (two pools with disjoint /30 networks '
     'share one vips directory in the vip-pools configuration, as in '
     'warpgate/policy_server)',
-    'EndpointsMgr ownerless mode (owner=None, Windows / host services) is '
-    'not explored; create_spec on an entry already held by the caller may '
-    'succeed or raise (the code raises), the table must not change',
+    'EndpointsMgr ownerless mode (owner=None): unlink_all without owner= is '
+    'explored in its filtered forms as a purge of exactly the addressed specs '
+    '(app, proto, endpoint equal to the filter); ownerless create_spec / '
+    'unlink_spec (plain files, Windows) are not explored; create_spec on an '
+    'entry already held by the caller may succeed or raise, the table must '
+    'not change',
     'interleavings: every os.symlink/readlink/unlink/stat/lstat/listdir/'
     'rename/rmdir/path.exists and glob issued by the manager is a scheduling '
     'point; the managers hold no state besides their paths; garbage_collect '
